@@ -12,7 +12,7 @@ diagnostics).
 (`str::is_char_boundary`).  `Decl.spans d`: every span of a parsed declaration — AST nodes,
 directive / argument / value / type / selection spans and the semantic tokens.
 -/
-import IsoVerif.Lemmas.IsoParseTop
+import IsoVerif.Lemmas.IsoParseText
 
 namespace IsoVerif.Props.C07
 open IsoVerif.Lex IsoVerif.IsoLex IsoVerif.IsoParse IsoVerif.Gen.IsoTokens
@@ -38,36 +38,68 @@ theorem C07_lex_boundaries {κ : Type} (L : Lexer κ) (s : List UInt8) :
 
 /-! ## the parser -/
 
-/-- Totality: for every input the parser model never reaches a Rust panic site
+/-- the fact about the iso lexer that makes the parser's string slicing safe: a `StringLiteral`
+token is `"`…`"`, a `BlockStringLiteral` token `"""`…`"""`, with one-byte quotes — for every input -/
+theorem C07_string_tokens (src : List UInt8) : StringTokensOK src := stringTokensOK src
+
+/-- No panic: for every input the parser model never reaches a Rust panic site
 (`Span::new`'s debug assertion, string slicing, the optional-result debug assertion). -/
-theorem C07_total (src : List UInt8) (ex : Option (List UInt8)) (h : StringTokensOK src) :
+theorem C07_no_panic (src : List UInt8) (ex : Option (List UInt8)) :
     ∀ site, parseIso src ex ≠ .panic site := by
   intro site hp
-  have := parseIso_spec src ex h
+  have := parseIso_spec src ex (stringTokensOK src)
   rw [hp] at this
   exact this
 
+/-- Totality: for every input the parser model returns a declaration or a diagnostic — it neither
+panics nor exhausts its recursion budget (`|src| + 2`, more than the number of tokens). -/
+theorem C07_total (src : List UInt8) (ex : Option (List UInt8)) :
+    (∃ d, parseIso src ex = .ok d) ∨ (∃ d, parseIso src ex = .diag d) := by
+  cases h : parseIso src ex with
+  | ok d => exact .inl ⟨d, rfl⟩
+  | diag d => exact .inr ⟨d, rfl⟩
+  | panic s => exact (C07_no_panic src ex s h).elim
+  | fuel => exact (parseIso_no_fuel src ex h).elim
+
 /-- Every span of a returned declaration — AST nodes and semantic tokens — satisfies
 `start ≤ end ≤ |src|` with both ends on character boundaries. -/
-theorem C07_spans (src : List UInt8) (ex : Option (List UInt8)) (h : StringTokensOK src) (d : Decl)
+theorem C07_spans (src : List UInt8) (ex : Option (List UInt8)) (d : Decl)
     (hd : parseIso src ex = .ok d) : ∀ sp ∈ Decl.spans d, GoodSpan src sp := by
-  have := parseIso_spec src ex h
+  have := parseIso_spec src ex (stringTokensOK src)
   rw [hd] at this
   exact this.1
 
 /-- The span of a returned diagnostic is well-formed (or the diagnostic has `Location::Generated`). -/
-theorem C07_diag_span (src : List UInt8) (ex : Option (List UInt8)) (h : StringTokensOK src) (d : Diag)
+theorem C07_diag_span (src : List UInt8) (ex : Option (List UInt8)) (d : Diag)
     (hd : parseIso src ex = .diag d) : match d.loc with | .span sp => GoodSpan src sp | .gen => True := by
-  have := parseIso_spec src ex h
+  have := parseIso_spec src ex (stringTokensOK src)
   rw [hd] at this
   exact this
 
 /-- Semantic tokens are non-empty, non-overlapping and in increasing order. -/
-theorem C07_tokens_sorted (src : List UInt8) (ex : Option (List UInt8)) (h : StringTokensOK src) (d : Decl)
+theorem C07_tokens_sorted (src : List UInt8) (ex : Option (List UInt8)) (d : Decl)
     (hd : parseIso src ex = .ok d) :
     (Decl.sem d).Pairwise (fun a b => a.span.e ≤ b.span.s) ∧ ∀ a ∈ Decl.sem d, a.span.s < a.span.e := by
-  have := parseIso_spec src ex h
+  have := parseIso_spec src ex (stringTokensOK src)
   rw [hd] at this
   exact ⟨this.2.1, fun a ha => (this.2.2 a ha).1⟩
+
+/-! Non-vacuity (kernel evaluation of the model): `field Q.f {\n}` parses to a declaration; the F5
+witness `field Q.f { a(x: 99999999999999999999)\n }` is the diagnostic `int` at the number. -/
+def isOk : Outcome → Bool
+  | .ok _ => true
+  | _ => false
+
+def diagOf : Outcome → Option Diag
+  | .diag d => some d
+  | _ => none
+
+example : isOk (parseIso [102, 105, 101, 108, 100, 32, 81, 46, 102, 32, 123, 10, 125] (some [120])) = true := by
+  decide +kernel
+
+example : diagOf (parseIso [102, 105, 101, 108, 100, 32, 81, 46, 102, 32, 123, 32, 97, 40, 120, 58, 32, 57, 57, 57, 57,
+    57, 57, 57, 57, 57, 57, 57, 57, 57, 57, 57, 57, 57, 57, 57, 57, 41, 10, 32, 125] (some [120])) =
+    some ⟨.int, .span ⟨17, 37⟩⟩ := by
+  decide +kernel
 
 end IsoVerif.Props.C07
